@@ -141,6 +141,8 @@ type Interp struct {
 	facts          []factEnt
 	dom            map[string]domain
 	entangled      map[string]bool
+	bound          map[string]ModelValue // variables the path condition fixes
+	boundMemo      map[*Term]*Term
 	DomSplit       int
 	domTrail       []domTrailEnt
 	soleMemo       map[*Term]soleInfo
@@ -488,6 +490,9 @@ func (in *Interp) decide(cond *Term) bool {
 	if v, ok := in.known(cond); ok {
 		return v
 	}
+	if r := in.evalBound(cond); r != nil && r.S.K == SBool {
+		return r.Lo == 1
+	}
 	if v, forced := in.domForced(cond); forced {
 		in.DomForced++
 		in.learn(cond, v)
@@ -692,12 +697,14 @@ func (h *HarnessRun) noteInconclusive(s string) {
 // concretizeInt forks over the values lo..hi of t (plus an "outside" arm that
 // returns ok=false).
 func (in *Interp) concretizeInt(t *Term, lo, hi int64) (int64, bool) {
+	t = in.fold(t)
 	if t.Op == OpConst {
 		v := t.SInt()
 		return v, v >= lo && v <= hi
 	}
 	for v := lo; v <= hi; v++ {
 		if in.decide(Eq(t, BVConst(uint64(v), t.S.W))) {
+			in.tryBind(t)
 			return v, true
 		}
 	}
@@ -1196,7 +1203,7 @@ func (in *Interp) jumpTo(fr *Frame, to *ssa.BasicBlock) {
 
 // concInt requires a concrete integer.
 func (in *Interp) concInt(v V, what string) int {
-	t := v.(*Term)
+	t := in.fold(v.(*Term))
 	if t.Op != OpConst {
 		in.unsupported("symbolic %s", what)
 	}
@@ -1206,7 +1213,7 @@ func (in *Interp) concInt(v V, what string) int {
 // makeLen converts a make() size; symbolic sizes are an "unmetered allocation"
 // event unless the harness installed a bound.
 func (in *Interp) makeLen(v V, what string) int {
-	t := v.(*Term)
+	t := in.fold(v.(*Term))
 	if t.Op != OpConst {
 		// Try small concretisation within the allocation bound.
 		if in.AllocBound > 0 {
